@@ -314,6 +314,14 @@ INTROSPECT_XML = '''<!DOCTYPE node PUBLIC "-//freedesktop//DTD D-BUS Object Intr
 </node>'''
 
 
+class _Watcher:
+    def __init__(self, fn):
+        self.fn = fn
+
+    def on_lost(self, who, reason):
+        return self.fn(who, reason)
+
+
 def _run_loss(case, lose_at):
     from txdbus import interface as I
     saved_known = dict(I.DBusInterface.knownInterfaces)
@@ -402,10 +410,16 @@ def _run_loss(case, lose_at):
             elif k == 'conn_cb':
                 cb = {'hits': [], 'active': True}
                 cb['fn'] = lambda conn, reason, cb=cb, rv=[None, True, 'done'][len(conn_cbs) % 3]: cb['hits'].append((conn, reason)) or rv   # the return value is ignored
-                rig.conn.notifyOnDisconnect(cb['fn'])
+                if len(conn_cbs) % 2 == 1:
+                    # registered as a bound method of an object nothing else refers to (it cannot be cancelled later:
+                    # keeping the method around would keep the object alive)
+                    rig.conn.notifyOnDisconnect(_Watcher(cb['fn']).on_lost)
+                    cb['fn'] = None
+                else:
+                    rig.conn.notifyOnDisconnect(cb['fn'])
                 conn_cbs.append(cb)
             elif k == 'conn_cb_cancel':
-                live = [c for c in conn_cbs if c['active']]
+                live = [c for c in conn_cbs if c['active'] and c['fn'] is not None]
                 if live:
                     c = live[op[1] % len(live)]
                     rig.conn.cancelNotifyOnDisconnect(c['fn'])
